@@ -75,6 +75,11 @@ package transport
 //@   at `pool.Put(params)` requires params != nil && isZero(params)
 //@   at `statusForGraphQLResponse(opErr)` requires contentType == acceptApplicationGraphqlResponseJson && opErr != nil
 //@   at `statusFor(opErr)` requires contentType != acceptApplicationGraphqlResponseJson && opErr != nil
+// and that status - nothing else - is what is written once the executor has refused the operation
+//@   ghost st = 0
+//@   at `statusForGraphQLResponse(opErr)` ghost st = callres0
+//@   at `statusFor(opErr)` ghost st = callres0
+//@   callsite WriteHeader: requires calls(CreateOperationContext) == 0 || arg0 == st
 //@   callsite WriteHeader: requires calls(DispatchOperation) == 0
 //@   callsite DispatchOperation: requires opErr == nil
 //@   ensures calls(DispatchOperation) >= 1 ==> calls(WriteHeader) == 0
@@ -171,6 +176,12 @@ package transport
 //@   safe
 //@   at `statusForGraphQLResponse(gqlError)` requires contentType == acceptApplicationGraphqlResponseJson && gqlError != nil
 //@   at `statusFor(gqlError)` requires contentType != acceptApplicationGraphqlResponseJson && gqlError != nil
+// and that status - nothing else - is what is written when the executor has refused the operation (406 is the
+// answer to an operation that was created but is not a query)
+//@   ghost st = 0
+//@   at `statusForGraphQLResponse(gqlError)` ghost st = callres0
+//@   at `statusFor(gqlError)` ghost st = callres0
+//@   callsite WriteHeader: requires calls(CreateOperationContext) == 0 || (createErr != nil && arg0 == st) || (createErr == nil && arg0 == 406)
 //@   at `w.WriteHeader(http.StatusNotAcceptable)` requires op.Operation != ast.Query
 //@   callsite WriteHeader: requires calls(DispatchOperation) == 0
 //@   callsite DispatchOperation: requires gqlError == nil && op == opCtx.Operation && op.Operation == ast.Query
